@@ -567,6 +567,18 @@ Section CertModel.
         end
     end.
 
+  (* the message can also be named by a path: _signed_data then hashes everything the file
+     delivers until end of file, however the reads are split into bursts ([chunks]), and ignores
+     is_hashed *)
+  Inductive msg_source := MBytes (b : bytes) | MPath (chunks : list bytes).
+  Definition source_bytes (s : msg_source) : bytes :=
+    match s with MBytes b => b | MPath chunks => concat chunks end.
+  Definition signed_data_src (s : msg_source) (is_hashed : bool) (hname nsb : bytes) : option bytes :=
+    match s with
+    | MBytes b => signed_data b is_hashed hname nsb
+    | MPath chunks => signed_data (concat chunks) false hname nsb
+    end.
+
   Definition sshsig_fmt : list fkind := [FU32; FStr; FStr; FStr; FStr; FStr].
 
   (* raw SSHSIG blob: MAGIC UInt32(1) String(pubdata) String(namespace) String(reserved)
